@@ -419,6 +419,13 @@ class Check:
         self.write_evidence(nviol, known_hits)
         for ln in lines:
             print(ln)
+        if os.environ.get("VERIF_DEBUG"):
+            for d in self.disagreements[:int(os.environ["VERIF_DEBUG"])]:
+                print("DISAGREE", json.dumps(d)[:3000])
+            for d in self.failures[:int(os.environ["VERIF_DEBUG"])]:
+                print("FAIL", json.dumps(d)[:3000])
+            for b in self.broken:
+                print("BROKEN", b[:1000])
         summ = {k: (s.evaluations, len(s.keys)) for k, s in self.streams.items()}
         nd = sum(1 for o in self.obligations if o["discharged"])
         print(f"[{self.prop}] tier={self.tier} seed={self.seed} obligations={nd}/{len(self.obligations)} "
